@@ -24,12 +24,16 @@ type CutConn struct {
 	cut      atomic.Bool
 	CutAt    atomic.Int64 // logical tick when the cut happened
 	onCut    func()
+	stall    atomic.Bool   // reads block until the connection is closed
+	stallCut time.Duration // when the read threshold is reached: stop reading for this long, then cut
+	gone     chan struct{}
+	goneOnce sync.Once
 	// StallWriteAfter, if >= 0, makes Write block (until the conn is closed) once that many bytes were written.
 	WriteLog func(n int)
 }
 
 func NewCutConn(c net.Conn) *CutConn {
-	return &CutConn{Conn: c, cutWrite: -1, cutRead: -1}
+	return &CutConn{Conn: c, cutWrite: -1, cutRead: -1, gone: make(chan struct{})}
 }
 
 // ArmWrite cuts the connection after exactly n more... absolute bytes written through this wrapper.
@@ -44,9 +48,16 @@ func (c *CutConn) Written() int64 { c.mu.Lock(); defer c.mu.Unlock(); return c.w
 func (c *CutConn) ReadN() int64   { c.mu.Lock(); defer c.mu.Unlock(); return c.read }
 func (c *CutConn) WasCut() bool   { return c.cut.Load() }
 
+// StallReads makes every Read block until the connection is closed (a peer that stops reading).
+func (c *CutConn) StallReads() { c.stall.Store(true) }
+
+// StallOnCut: once the armed read threshold is reached, stop reading for d, then cut.
+func (c *CutConn) StallOnCut(d time.Duration) { c.mu.Lock(); c.stallCut = d; c.mu.Unlock() }
+
 func (c *CutConn) doCut() {
 	if c.cut.CompareAndSwap(false, true) {
 		c.CutAt.Store(Tick())
+		c.goneOnce.Do(func() { close(c.gone) })
 		c.Conn.Close()
 		if c.onCut != nil {
 			c.onCut()
@@ -93,7 +104,12 @@ func (c *CutConn) Read(b []byte) (int, error) {
 	if c.cut.Load() {
 		return 0, ErrCut
 	}
+	if c.stall.Load() {
+		<-c.gone
+		return 0, ErrCut
+	}
 	c.mu.Lock()
+	stallCut := c.stallCut
 	limit := int64(len(b))
 	cutting := false
 	if c.cutRead >= 0 {
@@ -107,6 +123,12 @@ func (c *CutConn) Read(b []byte) (int, error) {
 	}
 	c.mu.Unlock()
 	if cutting {
+		if stallCut > 0 {
+			select {
+			case <-time.After(stallCut):
+			case <-c.gone:
+			}
+		}
 		c.doCut()
 		return 0, ErrCut
 	}
@@ -115,7 +137,7 @@ func (c *CutConn) Read(b []byte) (int, error) {
 	c.read += int64(n)
 	hit := c.cutRead >= 0 && c.read >= c.cutRead
 	c.mu.Unlock()
-	if hit && err == nil {
+	if hit && err == nil && stallCut == 0 {
 		// the allowed prefix has been delivered; the next Read observes the cut
 		c.doCut()
 	}
@@ -123,6 +145,7 @@ func (c *CutConn) Read(b []byte) (int, error) {
 }
 
 func (c *CutConn) Close() error {
+	c.goneOnce.Do(func() { close(c.gone) })
 	return c.Conn.Close()
 }
 
